@@ -77,6 +77,7 @@ T = [
 ("C11","fix: searchNode did not check search permission","a MemFS view never checked search permission on its own root directory: a non-administrator user of Sub(dir) read and wrote below dir although the parent refuses the same path prefixed with dir with EACCES; a refused RemoveAll through such a view had already emptied files (were KF-C11-001 and KF-C11-002)"),
 ("C12","fix: a file system returned by FailFS.Sub kept","a file system obtained with FailFS.Sub before SetFailFunc never consulted the function installed later (sub.Mkdir changed the base under ReadOnlyFunc), and one obtained under a function kept it after it was replaced: Sub copied the function instead of sharing it"),
 ("C03","fix: O_APPEND, O_CREATE and O_TRUNC were taken for write access","OpenFile(O_RDONLY|O_APPEND) and OpenFile(O_RDONLY|O_CREATE) of an existing file were refused (EACCES) to a user who may read but not write it, O_RDONLY|O_APPEND of a directory answered EISDIR, and a handle opened O_RDONLY together with O_APPEND, O_CREATE or O_TRUNC accepted Write, WriteAt and Truncate: ToOpenMode turned those flags into write access (were KF-C02-002 and KF-C01-011)"),
+("C02","fix: a piece of a directory listing shared its spare capacity","ReadDir(n)/Readdirnames(n) with n > 0 (MemFS and OrefaFS handles) returned sub-slices of the listing kept for the next pieces, with spare capacity: appending to a returned piece overwrote the names delivered by the next call (os.File: a fresh slice per call)"),
 ]
 log = subprocess.check_output(['git','-C','/repo','log','--format=%h %s','adfd2e3..HEAD']).decode().strip().split('\n')
 subj = {}
